@@ -16,3 +16,10 @@ CLAIMED['C03'] = dict(
     technique='Lean 4 theorems over ℝ about the interpolation model (anchors, continuity, C¹/C² via HasDerivAt gluing, inverse-matrix identity, fast=slow, cache invariant by induction) + differential correspondence model↔pyhf',
     text='Proof: 44 theorems state for every real alpha and every down/nominal/up triple that each code is neutral at 0, hits the variations at ±1, is continuous (codes 2/4/4p differentiable, 4/4p twice) across its breakpoints, extrapolates with the matching slope/exponent, that the vectorised cell computation equals the scalar reference, that the hand-typed 6×6 inverse matrix of code 4 solves the boundary conditions for every alpha0≠0, and (induction over call/switch histories) that the cache used by a call equals a fresh interpolator\'s. The model is tied to the code by running both on generated cells (all regimes, breakpoints and float neighbours, 4 backends × 2 precisions) and on call/backend histories.',
     note=TB + 'Real.rpow/log as the meaning of pow/log; floating-point rounding and tensor-library elementwise semantics trusted (tolerances 1e-11 additive, 1e-9 multiplicative, measured discrepancy ≤ 5e-14).')
+for e in ENGINES:
+    e['serves_properties'] = ['C01', 'C03']
+CLAIMED['C01'] = dict(
+    engine='lean-model', design_ref='DESIGN.md §4 C01',
+    technique='Lean 4 refinement theorem: tensor-level model T (mega-channel tables, masks, gather indices) = declarative HistFactory rate formula D, for every accepted spec, interpolation setting and parameter vector; differential correspondence T↔pyhf and D↔pyhf',
+    text='Proof: C01_expected_eq_formula shows, for every specification accepted by the modelled construction path (plus four decidable hypotheses the code does not check, each evaluated on every generated spec), that the expected rates computed the way pyhf computes them equal per channel and bin Σ_samples (Π declared factors)·(nominal + Σ declared shifts) with parameters read through the slice of the named parameter set, channels concatenated in configuration order; companion theorems give the per-sample output, zero contribution of absent samples, neutrality of undeclared modifiers and dependence of each factor on its named parameter only. The structural half (C01_blocks) holds for any number type. The model is tied to the code on random specs × parameter points in every interpolation regime × clipping × 4 backends × 2 precisions; an independent loop evaluation of the formula from the raw spec is the failing-input oracle.',
+    note=TB + 'tensor libraries (einsum/where/gather/concatenate) modelled as list operations; floating point absorbed by rtol 1e-11 (measured 5e-16); clip_sample_data>0 with absent samples is the recorded finding C01/clip-absent-sample (excluded from the theorem by hypothesis clipSampleNonPos).')
